@@ -6,6 +6,7 @@ import (
 	"fmt"
 	"os"
 	"runtime"
+	"runtime/debug"
 	"sort"
 	"strconv"
 	"time"
@@ -18,6 +19,7 @@ func die2(format string, a ...any) {
 }
 
 func main() {
+	debug.SetMaxStack(48 << 20) // runaway recursion (e.g. a validator that ends up containing itself) fails fast
 	if len(os.Args) < 2 {
 		die2("usage: sim worker|check|replay|gen|detlog ...")
 	}
@@ -77,6 +79,8 @@ type WorkerResult struct {
 	NextIdx     int               `json:"next_idx"` // first index not executed (a race worker stops at its first report)
 	Stopped     string            `json:"stopped,omitempty"`
 	HashXor     uint64            `json:"hash_xor"` // xor of (idx-mixed) event hashes: determinism self-test
+	CrashIdx    int               `json:"crash_idx,omitempty"`
+	CrashMsg    string            `json:"crash_msg,omitempty"`
 }
 
 func statsMap(s any) map[string]uint64 {
@@ -120,6 +124,7 @@ func runWorker(p *Prop, tier string, seed uint64, offset, stride, max int, budge
 			res.Stopped = "budget"
 			break
 		}
+		fmt.Fprintf(os.Stderr, "RUN %d\n", idx) // a crashed worker is diagnosed from its last RUN line
 		sc := p.Gen(seed, tier, idx)
 		rep := p.Run(sc, false)
 		res.Runs++
